@@ -255,13 +255,25 @@ def check(run, model, tier):
         if f is None:
             raise AnalysisError('ActiveObject.%s not found' % nm)
         helpers = list(f.nested.values())
+        fn_param = f.params[1]
+        if not helpers:
+            # the closure may be built by a helper method of the object that takes the callback (`self.live_spy_callback = self.__enclose_for_writer(live_spy_callback)`)
+            for c_ in shallow_calls(f.node):
+                if isinstance(c_.func, ast.Attribute) and isinstance(c_.func.value, ast.Name) and c_.func.value.id == f.params[0] and len(c_.args) == 1 \
+                        and isinstance(c_.args[0], ast.Name) and c_.args[0].id == f.params[1]:
+                    m_ = next((k_.methods[c_.func.attr] for k_ in model.mro(ao) if c_.func.attr in k_.methods), None)
+                    if m_ is None:
+                        m_ = next((v_ for k2_, v_ in ao.methods.items() if k2_.endswith(c_.func.attr.lstrip('_')) or c_.func.attr.endswith(k2_.lstrip('_'))), None)
+                    if m_ is not None and len(m_.nested) == 1 and len(m_.params) == 2:
+                        helpers = list(m_.nested.values())
+                        fn_param = m_.params[1]
         ok = len(helpers) == 1
         if ok:
             hcalls = shallow_calls(helpers[0].node)
             ok = len(hcalls) == 1 and isinstance(hcalls[0].func, ast.Attribute) and hcalls[0].func.attr == '_print' and (dotted(hcalls[0].func.value) or '').endswith('.writer')
             if ok:
                 kw = {k.arg: k.value for k in hcalls[0].keywords}
-                ok = isinstance(kw.get('fn'), ast.Name) and kw['fn'].id == f.params[1] and isinstance(kw.get('content'), ast.Name) and kw['content'].id == helpers[0].params[0]
+                ok = isinstance(kw.get('fn'), ast.Name) and kw['fn'].id == fn_param and isinstance(kw.get('content'), ast.Name) and kw['content'].id == helpers[0].params[0]
         if not ok and not helpers:
             raise AnalysisError('%s: the callback wrapper is not a closure nested in the method (unknown shape)' % f.qualname)
         run.inst('LIVE.writer', f, 'callback wrapper only enqueues (fn, line) to the writer', ok, 'the active-object callback wrapper changed shape', obligation=True)
@@ -272,6 +284,13 @@ def check(run, model, tier):
     writer_item_verbatim(run, model, wr, pr)
     st = wr.methods.get('start')
     runner = list(st.nested.values())
+    if not runner:
+        # the thread function may be a method of the writer: Thread(target=self.<method>)
+        for c_ in shallow_calls(st.node):
+            if norm(c_.func).split('.')[-1] == 'Thread':
+                tg_ = next((k_.value for k_ in c_.keywords if k_.arg == 'target'), None)
+                if isinstance(tg_, ast.Attribute) and isinstance(tg_.value, ast.Name) and tg_.value.id == st.params[0] and tg_.attr in wr.methods:
+                    runner = [wr.methods[tg_.attr]]
     if len(runner) != 1:
         raise AnalysisError('writer thread function not found')
     r = runner[0]
